@@ -1,11 +1,11 @@
 package main
 
 import (
-	"sort"
-	"reflect"
 	"fmt"
 	"math"
 	"math/rand"
+	"reflect"
+	"sort"
 
 	"github.com/ctessum/geom"
 )
@@ -98,6 +98,65 @@ func c01Canon(rings []geom.Path) []string {
 	return out
 }
 
+func c01Rings(g geom.Polygonal) [][]geom.Path {
+	var out [][]geom.Path
+	if isNilPolygonal(g) {
+		return out
+	}
+	for _, p := range g.Polygons() {
+		out = append(out, []geom.Path(p))
+	}
+	return out
+}
+
+// c01ShareStore moves the ring lists of the polygons of both operands (a Polygon's own list, the lists of a
+// MultiPolygon's members; a *Bounds has none) into one array, interleaved (A's first, B's first, A's second, ...); every
+// polygon keeps its rings but its slice now has the rest of the array as spare capacity.
+func c01ShareStore(A, B geom.Polygonal) (geom.Polygonal, geom.Polygonal) {
+	members := func(g geom.Polygonal) (geom.Polygonal, []*geom.Polygon) {
+		switch x := g.(type) {
+		case geom.Polygon:
+			p := x
+			return nil, []*geom.Polygon{&p}
+		case geom.MultiPolygon:
+			out := make([]*geom.Polygon, len(x))
+			for i := range x {
+				out[i] = &x[i]
+			}
+			return x, out
+		}
+		return g, nil
+	}
+	ga, ma := members(A)
+	gb, mb := members(B)
+	var order []*geom.Polygon
+	for i := 0; i < len(ma) || i < len(mb); i++ {
+		if i < len(ma) {
+			order = append(order, ma[i])
+		}
+		if i < len(mb) {
+			order = append(order, mb[i])
+		}
+	}
+	n := 0
+	for _, p := range order {
+		n += len(*p)
+	}
+	store := make([]geom.Path, 0, n)
+	for _, p := range order {
+		off := len(store)
+		store = append(store, (*p)...)
+		*p = geom.Polygon(store[off:len(store):cap(store)])
+	}
+	if ga == nil {
+		ga = *ma[0]
+	}
+	if gb == nil {
+		gb = *mb[0]
+	}
+	return ga, gb
+}
+
 func runC01(c map[string]interface{}) []Event {
 	scale := 2.0
 	if str(c["kind"]) == "f2" || str(c["kind"]) == "f2r" {
@@ -107,10 +166,15 @@ func runC01(c map[string]interface{}) []Event {
 	if v, ok := c["sh"]; ok { // magnitude shift: operands times 2^sh (exact); results are read back through the same factor
 		scale = scale * math.Ldexp(1, -num(v))
 	}
-	e := Event{"ev": "op", "again": false, "rings": []interface{}{}, "integral": true, "pts": []interface{}{}, "inres": []interface{}{}}
+	e := Event{"ev": "op", "again": false, "inputsame": false, "rings": []interface{}{}, "integral": true, "pts": []interface{}{}, "inres": []interface{}{}}
 	e["out"] = safely(func() {
 		A := buildOperand(c["A"], str(c["ta"]), scale)
 		B := buildOperand(c["B"], str(c["tb"]), scale)
+		if (len(arr(c["A"]))+len(arr(c["B"]))+int(seed()))%2 == 0 {
+			// the ring lists of all polygons of both operands are sub-slices of one array (as after decoding a whole layer into
+			// one buffer), interleaved, each with the rest of the array as spare capacity: the values are what they were
+			A, B = c01ShareStore(A, B)
+		}
 		r := applyOp(A, B, str(c["op"]))
 		var rings []geom.Path
 		if !isNilPolygonal(r) {
@@ -132,6 +196,9 @@ func runC01(c map[string]interface{}) []Event {
 			}
 		}
 		e["again"] = reflect.DeepEqual(first, c01Canon(rings2))
+		// ... and the operands are still the values they were
+		e["inputsame"] = reflect.DeepEqual(c01Rings(A), c01Rings(buildOperand(c["A"], str(c["ta"]), scale))) &&
+			reflect.DeepEqual(c01Rings(B), c01Rings(buildOperand(c["B"], str(c["tb"]), scale)))
 		if isF1 {
 			out := make([]interface{}, len(rings))
 			for i, ring := range rings {
